@@ -606,7 +606,7 @@ impl Sut for Refs {
             ),
             Ok(Applied { outcome, violations }) => (outcome, violations),
         };
-        if violations.is_empty() {
+        if violations.is_empty() && !outcome.starts_with("error") {
             // isolation oracle over every expected (ref, version)
             let actor = op_actor(op);
             let before_model = &st.model;
